@@ -140,6 +140,9 @@ func runC18(w *World, tr *Trace) {
 			switch x := r.Intn(14); {
 			case x >= 12:
 				mut = append(mut, Op{K: "compact", T: int64(r.Intn(2))})
+			case x < pa && r.Intn(5) == 0:
+				// two slots touched for the first time by two goroutines at once, as the workers of a parallel batch insert do
+				mut = append(mut, Op{K: "palloc", KK: 1 + r.Intn(29)})
 			case x < pa:
 				mut = append(mut, Op{K: "alloc", KK: 1 + r.Intn(30)})
 			case x < 10:
@@ -215,6 +218,51 @@ func runC18(w *World, tr *Trace) {
 			c.mu.Lock()
 			c.shadow[id] = ver
 			c.mu.Unlock()
+		case "palloc":
+			ids := []uint32{uint32(op.KK), uint32(op.KK) + 1}
+			gate.RLock()
+			defer gate.RUnlock()
+			mutGate.Lock()
+			defer mutGate.Unlock()
+			for _, id := range ids {
+				c.mu.Lock()
+				c.shadow[id] = -1
+				c.mu.Unlock()
+				c.epoch.Add(1)
+				if _, err := c.arena.AllocSlot(id); err != nil {
+					w.Fail("arena_ops", "alloc_error", err.Error(), i)
+					return
+				}
+			}
+			var bs [2][]byte
+			var errs [2]error
+			done := make(chan int, 2)
+			for k := range ids {
+				k := k
+				verifsync.Go(func() {
+					bs[k], errs[k] = c.arena.GetBytes(ids[k])
+					done <- k
+				})
+			}
+			<-done
+			<-done
+			w.Probe("concurrent_first_touch")
+			for k, id := range ids {
+				if errs[k] != nil {
+					w.Fail("arena_ops", "getbytes_error", errs[k].Error(), i)
+					return
+				}
+				c.mu.Lock()
+				c.nver++
+				ver := c.nver
+				c.mu.Unlock()
+				c18Write(bs[k], c18Pattern(id, ver))
+				c.epoch.Add(1)
+				c.upd.UpdateNodePointer(id, bs[k])
+				c.mu.Lock()
+				c.shadow[id] = ver
+				c.mu.Unlock()
+			}
 		case "free":
 			id := uint32(op.KK)
 			gate.RLock()
